@@ -2,6 +2,7 @@ import ModbusModel.Model.Server
 import ModbusModel.Lemmas.Framed
 import ModbusModel.Props.C01
 import ModbusModel.Lemmas.ServeEnd
+import ModbusModel.Lemmas.ServeFault
 /-
   C14 – A server connection ends cleanly or with one error report; the server lives on.
 -/
@@ -197,6 +198,26 @@ theorem connection_end_rtu (svc : Service) (reqs : List (UInt8 × Request)) (tai
   have H := H0 hv hne hw hf hreads hfeed hdata htail' henc'
   rw [hitems] at H
   exact H
+
+/-- **a reply that cannot be written ends the connection with one error**: whatever part of the
+    reply frame the transport takes – in any pieces, with any `Pending`s – before it fails
+    (error kind or zero-length write), the task ends `failed` with exactly that error; the
+    request had been handed to the service once, the bytes that reached the transport are a
+    prefix of the one reply frame, and nothing is served afterwards -/
+theorem unwritable_reply_ends_connection (k : Kind) (svc : Service) (fuel idx : Nat) (f : ServerFramed)
+    (t : Transport) (tr : List SrvEvent) (hdr : Hdr) (req : Request) (fd : FrameDecoder) (r : ReadFrame)
+    (evs : List ReadEv) (rsp : ResponseResult) (frame : Bytes)
+    (ps : List (Option Nat)) (fault : WriteEv) (kf : ErrKind) (rest : List WriteEv)
+    (h : awaitNext (serverDecoder k) f.fd f.read t.reads = (.item (hdr, req), fd, r, evs))
+    (hs : responseFor req.functionCode (svc idx hdr.unit req) = some rsp)
+    (he : serverEncode k hdr rsp = .ok frame)
+    (hw : f.wbuf = []) (hk : fault.faultKind = some kf)
+    (ht : t.writes = pieceEvents ps ++ fault :: rest)
+    (hpos : ∀ n, some n ∈ ps → 0 < n) (hacc : Modbus.accepted ps < frame.length) :
+    (processLoop k svc (fuel + 1) idx f t tr).1 = .failed kf
+    ∧ ∃ effs, (processLoop k svc (fuel + 1) idx f t tr).2.1 = tr ++ [.call hdr.unit req] ++ effectsToEvents effs
+        ∧ writtenBytes effs = frame.take (Modbus.accepted ps) :=
+  loop_reply_write_fault k svc fuel idx f t tr hdr req fd r evs rsp frame ps fault kf rest h hs he hw hk ht hpos hacc
 
 -- non-vacuity
 example : serve [.accepted 0, .rejected, .accepted 1, .setupFailed (.injected 3), .accepted 2]
